@@ -813,3 +813,53 @@ Proof.
     + destruct z; (split; [assumption || reflexivity | right; repeat split]).
     + destruct z; (split; [assumption || reflexivity | right; repeat split]).
 Qed.
+
+(** * arbitrary ranges *)
+From KdV Require Import Fmt.ReadProofs.
+
+Lemma spec_read_page_len img pgsz max_pfn z pfn c :
+  Forall (fun oc => match oc with Some c => len c = pgsz /\ bytes_ok c | None => True end) img ->
+  spec_read_page img pgsz max_pfn z pfn = Ok c -> len c = pgsz.
+Proof.
+  intros Hall H. unfold spec_read_page in H. destruct (max_pfn <=? pfn); [discriminate |].
+  destruct (nth_error img (N.to_nat pfn)) as [[c' |] |] eqn:E.
+  - injection H as <-. rewrite Forall_forall in Hall. now destruct (Hall _ (nth_error_In _ _ E)).
+  - destruct z; [injection H as <-; apply len_zeros | discriminate].
+  - destruct z; [injection H as <-; apply len_zeros | discriminate].
+Qed.
+
+Theorem diskdump_read_range decompress l pages img :
+  dd_wf l img -> Forall2 (stores decompress) pages img -> len (encode_dd l pages) < 2^64 ->
+  exists st, dd_open (read_files [encode_dd l pages]) 1 = Ok st /\
+    forall zero_excluded addr n, addr + n <= 2^64 ->
+      let '(status, data) := dd_read (read_files [encode_dd l pages]) decompress st zero_excluded addr n in
+      exists m, N.of_nat m <= n /\
+        data = ReadProofs.bytes_from (spec_read_page img (dl_page_size l) (dl_max_mapnr l) zero_excluded)
+                                     (dl_page_size l) addr m /\
+        ((status = KDUMP_OK /\ N.of_nat m = n) \/
+         (N.of_nat m < n /\
+          spec_read_page img (dl_page_size l) (dl_max_mapnr l) zero_excluded
+                         ((addr + N.of_nat m) / dl_page_size l) = Err status)).
+Proof.
+  intros Hwf Hst Hsz. exists (expected_state l pages). split; [exact (open_spec decompress l pages img Hwf Hst Hsz) |].
+  intros z addr n Hr. unfold dd_read.
+  pose proof (pgsz_bounds l img Hwf) as Hpb.
+  pose proof (read_range_spec (dd_get_page (read_files [encode_dd l pages]) decompress z)
+                (fun st => st = expected_state l pages)
+                (spec_read_page img (dl_page_size l) (dl_max_mapnr l) z) (dl_page_size l)
+                ltac:(lia)) as H.
+  cbn [dd_page_size expected_state].
+  assert (Hget : forall st a, (fun st => st = expected_state l pages) st -> a mod dl_page_size l = 0 ->
+            fst (dd_get_page (read_files [encode_dd l pages]) decompress z st a) =
+              spec_read_page img (dl_page_size l) (dl_max_mapnr l) z (a / dl_page_size l) /\
+            (fun st => st = expected_state l pages)
+              (snd (dd_get_page (read_files [encode_dd l pages]) decompress z st a))).
+  { intros st a Hs _. cbn beta in Hs. subst st. unfold dd_get_page. cbn [fst snd dd_page_size expected_state].
+    split; [apply (read_page_spec decompress l pages img Hwf Hst Hsz) | reflexivity]. }
+  specialize (H Hget).
+  specialize (H (fun k c => spec_read_page_len img _ _ z k c (wf_pages _ _ Hwf))).
+  specialize (H (expected_state l pages) addr n eq_refl Hr).
+  destruct (read_range (dd_get_page (read_files [encode_dd l pages]) decompress z) (dl_page_size l)
+              (expected_state l pages) addr n) as [[status data] st'].
+  cbn [fst]. destruct H as [_ H]. exact H.
+Qed.
